@@ -1235,7 +1235,7 @@ func c06ClosedState(c *Ctx) {
 	}
 	// form (b)
 	b := true
-	fDnsdb := c.Field("dnsserver", "FBDNSDB", "dnsdb")
+	fDnsdb := c.tabledFieldByName("dnsserver", "FBDNSDB", "dnsdb")
 	nb := 0
 	for _, fn := range c.OurFuncs("dnsserver") {
 		if fn.Parent() != nil || fn.Signature.Recv() == nil {
